@@ -30,6 +30,7 @@ fn canary_ok(c: &[u8]) -> bool {
 macro_rules! slices {
     ($rep:ident, $T:ident, $S:ident, $N:expr, $from:ident, $write:ident, $arr:ident) => {{
         let tn = stringify!($T);
+        let asan = $rep.args.cfg == "asan";
         $rep.sweep(&format!("{tn}/{}+{}/lengths 0..N+4 on exact-size heap buffers", stringify!($from), stringify!($write)), ($N + 5) as u64, |idx, acc| {
             let len = idx as usize;
             let vals: Vec<$S> = (0..len).map(|i| <$S as Sc>::fin(i + 1)).collect();
@@ -49,20 +50,33 @@ macro_rules! slices {
                 (Ok(_), false) => acc.fail(&format!("{tn}::{}", stringify!($from)), format!("len={len} < {}: did not panic", $N)),
                 (Err(e), true) => acc.fail(&format!("{tn}::{}", stringify!($from)), format!("len={len} >= {}: panicked: {e}", $N)),
             }
-            // write side
+            // write side. Under AddressSanitizer the destination is an exactly-sized heap allocation (any
+            // byte outside it is reported by the sanitizer); otherwise it is carved out of a larger arena
+            // with guard zones, so that a store beyond the slice is observed instead of corrupting the heap
             let src = <$T>::$from(&(0..$N).map(|i| <$S as Sc>::fin(i + 40)).collect::<Vec<_>>());
-            let mut out: Box<[$S]> = vec![<$S as Sc>::fin(99); len].into_boxed_slice();
+            const G: usize = 16;
+            let guard = <$S as Sc>::fin(77);
             let c3 = canary();
-            let r = catch(|| { src.$write(&mut out); });
+            let (r, out, guards_ok): (Result<(), String>, Vec<$S>, bool) = if asan {
+                let mut out: Box<[$S]> = vec![<$S as Sc>::fin(99); len].into_boxed_slice();
+                let r = catch(|| { src.$write(&mut out); });
+                (r, out.to_vec(), true)
+            } else {
+                let mut arena: Vec<$S> = vec![guard; len + 2 * G];
+                for x in &mut arena[G..G + len] { *x = <$S as Sc>::fin(99); }
+                let r = catch(|| { src.$write(&mut arena[G..G + len]); });
+                let ok = arena[..G].iter().chain(arena[G + len..].iter()).all(|x| x.bits() == guard.bits());
+                (r, arena[G..G + len].to_vec(), ok)
+            };
             acc.eval(true, r.is_ok() as u64 | (len as u64) << 1 | 1 << 20);
+            if !guards_ok { acc.fail(&format!("{tn}::{}", stringify!($write)), format!("len={len}: wrote outside the destination slice")); }
             match (&r, len >= $N) {
                 (Ok(_), true) => {
                     let want: Vec<$S> = (0..len).map(|i| if i < $N { <$S as Sc>::fin(i + 40) } else { <$S as Sc>::fin(99) }).collect();
                     if !bits_eq(&out, &want) { acc.fail(&format!("{tn}::{}", stringify!($write)), format!("len={len}: buffer {:?}, want {:?} (first {} written, rest untouched)", out, want, $N)); }
                 }
                 (Err(_), false) => {
-                    // in-bounds prefix writes before the panic are tolerated (safe code); anything
-                    // beyond the slice would be caught by the canaries / AddressSanitizer
+                    // in-bounds prefix writes before the panic are tolerated (safe code)
                 }
                 (Ok(_), false) => acc.fail(&format!("{tn}::{}", stringify!($write)), format!("len={len} < {}: did not panic", $N)),
                 (Err(e), true) => acc.fail(&format!("{tn}::{}", stringify!($write)), format!("len={len} >= {}: panicked: {e}", $N)),
